@@ -72,6 +72,8 @@ func zoneOf(z string) *time.Location {
 	switch {
 	case z == "" || z == "UTC":
 		return time.UTC
+	case z == "Local":
+		return time.Local // the very location value, as time.Now() and Time.Local() give it
 	case z == "MST-7":
 		return time.FixedZone("MST", -7*3600)
 	case z[0] == '+' || z[0] == '-':
